@@ -2,6 +2,6 @@ SPECIFICATION MCSpec
 CONSTANTS
   Key = {"k1", "k2"}
   Val = {1, 2}
-  Tamper = {"none", "drop", "extra", "alter", "wrongroot", "wronghash", "replay", "swap"}
+  Tamper = {"none", "drop", "extra", "alter", "wrongroot", "wronghash", "replay", "swap", "relabel"}
 INVARIANTS C28_HonestReproduces C28_MismatchRejected C28_RejectedUntouched C28_AcceptedIsComputed IncompleteOnlyBySwap
 CHECK_DEADLOCK FALSE
